@@ -359,6 +359,7 @@ class SimEnv:
         self.on_fault = None                # fn(kind) called when a link fault is injected
         self.on_rx = None                   # fn(link_index) called when receive_packet returns a packet
         self.on_tx = None                   # fn(link_index, header, data, status) at every send_packet
+        self.hello = False                  # True: an unsolicited console packet is queued at connect
 
 
 def make_driver_class():
@@ -394,6 +395,9 @@ def make_driver_class():
             self.link_error_callback = link_error_callback
             self.index = len(env.links)
             env.links.append(self)
+            if env.hello:
+                # a real Crazyflie talks unasked (console text): there is a packet waiting as soon as the link is up
+                self.in_queue.queue.append(CRTPPacket(0x00, bytearray(b'hello')))
 
         def send_packet(self, pk):
             env = self.env
